@@ -305,7 +305,8 @@ pub fn repetition_programs() -> Vec<String> {
     let mut out: Vec<String> = vec![];
     for op in crate::model::valuepool::BINARY_OPS {
         for k in 3..=7usize {
-            let operands: Vec<String> = (1..=k).map(|i| i.to_string()).collect();
+            // operands 2, 3, 4 ...: with a leading 1 both groupings of `**` (and of `*`) give the same value
+            let operands: Vec<String> = (2..=k + 1).map(|i| i.to_string()).collect();
             out.push(if *op == " " { operands.join(" ") } else { operands.join(&format!(" {} ", op)) });
         }
     }
